@@ -14,6 +14,31 @@ Theorem amd64_classify_eq_sysv : forall t,
 Proof. intros t W E NE S. exact (proj1 (classify_ok t W E NE S)). Qed.
 Print Assumptions amd64_classify_eq_sysv.
 
+(* elementTypesCount (the leaf count GetTypeInfo branches on) is the number of leaves of the
+   flattening elementTypes, for every shape: in particular an array - of scalars, of structs,
+   of arrays - counts its length times the leaves of its element. *)
+Theorem leaf_count_is_flatten_length : forall t, ecount t = N.of_nat (length (elems t)).
+Proof. exact ecount_length. Qed.
+Print Assumptions leaf_count_is_flatten_length.
+
+Theorem leaf_count_array : forall n e,
+  N.of_nat (length (elems (CArr n e))) = n * N.of_nat (length (elems e)).
+Proof. intros n e. rewrite <- !ecount_length. reflexivity. Qed.
+Print Assumptions leaf_count_array.
+
+(* GetTypeInfo depends on the shape only through its size, its alignment and the flattened
+   leaf sequence: nesting (arrays of structs, nested arrays, nested structs) is invisible. *)
+Theorem classification_depends_on_leaves_only : forall t u,
+  csize t = csize u -> calign t = calign u -> elems t = elems u -> gti t = gti u.
+Proof. intros t u S A E. unfold gti. rewrite !ecount_length, S, A, E. reflexivity. Qed.
+Print Assumptions classification_depends_on_leaves_only.
+
+Example leaves_only_nontrivial :
+  let t := CStruct [CS (SI 8); CArr 1 (CStruct [CS (SI 4); CS (SI 4)])] in
+  let u := CStruct [CS (SI 8); CS (SI 4); CS (SI 4)] in
+  ecount t = 3 /\ elems t = elems u /\ gti t = TW2 (KScalar (SI 8)) (KInt 64) /\ gti t = gti u /\ covers t = true.
+Proof. repeat split. Qed.
+
 (* MEMORY (byval / sret pointer) exactly when the aggregate is larger than two eightbytes;
    any shape, nested or not. *)
 Theorem amd64_memory_iff_gt16 : forall t,
